@@ -72,6 +72,9 @@ def case_st(draw):
         'server_greets': draw(st.sampled_from([0, 0, 1, 2])),
         'steps': draw(st.lists(step_st, max_size=6)),
         # client handlers that take (virtual) time: the event is logged when the handler starts
+        # AsyncClient without an http_session of the caller: it creates its own session and
+        # closes it at the end of every connection
+        'own_session': draw(st.sampled_from([False, False, True])),
         'client_delay': draw(st.sampled_from([{}, {}, {}, {'message': 0.25}, {'disconnect': 0.25},
                                               {'connect': 0.25},
                                               {'message': 0.25, 'disconnect': 0.25}])),
@@ -84,7 +87,10 @@ def check_case(case, ctx=None):
     rep = dict(case)
     cfg = {'ping_interval': case['I'], 'ping_timeout': case['T'], 'http_compression': False}
     H = TClientHarness if impl == 'thread' else AClientHarness
-    h = H(cfg, faults=case['faults'])
+    if impl == 'async' and case.get('own_session'):
+        h = H(cfg, faults=case['faults'], own_session=True)
+    else:
+        h = H(cfg, faults=case['faults'])
     h.handler_delay = dict(case.get('client_delay') or {})
     h.world.app_log.connect_sends = ['greeting%d' % i for i in range(case.get('server_greets', 0))]
     cl = h.client
